@@ -1,22 +1,24 @@
 /* C17 - bounded drive over the REAL translated bodies (DESIGN 3.8).
- * One shared state, three handle slots, two function awaiters.  units.py enumerates EVERY order of up to DRIVE_LEN operations
- * over the alphabet below that contain the resolution (single thread) and hands them to this harness as a constant table; the
- * harness runs each script on fresh objects and then completes it (reads through every copy, destroys every handle).
+ * One shared state, three handle slots, two function awaiters.  A unit hands this harness ONE fixed order of operations (a
+ * constant table, see units.py: the quick tier runs the orders the property statement singles out, the thorough tier every
+ * order of <= 4 operations that contains the resolution); the harness creates the state, runs the order on fresh objects and
+ * then completes it (reads through every copy, destroys every handle).  Alphabet:
  *     CC copy-construct a new handle        CA copy-assign into an empty handle      DD destroy a handle
  *     DA drop by assigning an empty handle  AS self-assignment                       AP assignment between two owners
  *     SU subscribe the next awaiter         RV resolve with a value                  BR break the promise (destroy it)
  * (handles are interchangeable for the shared state, so each operation picks canonical slots: lowest owner / lowest empty /
- *  highest owner).  Enumeration instead of nondeterministic choice: a symbolic order makes CBMC reason at byte level about
- *  every pointer and needs > 16 GB already for 3 steps; concrete orders are executed by constant propagation.
+ *  highest owner).  Fixed orders instead of a nondeterministic choice per step: with a symbolic order CBMC reasons at byte level
+ *  about every pointer (1 step: ~1 min, 3 steps: > 16 GB); a fixed order is executed almost concretely (~2-20 s).  Even several
+ *  fixed orders in one run do not stay concrete, hence one order per unit.  The resolved value stays symbolic.
  * Real code: the shared_future members, the libstdc++ shared_ptr wrappers above the control-block model, future<int> /
  * promise<int> (get_promise, move, claim, set, resolve, destructor), awaiter::resume_chain_set_ready / resume_chain_lk /
  * resume, the tracer lambda, future::value / ready.
  * Abstract: the control block (lib/model_sharedptr_cb.c), awaiter::subscribe_check_ready (sequential reading, sf_spec.h),
  * suspend_point::operator<< / suspend_now (checked to be used on empty suspend points only - no awaiter here is a coroutine).
- * Checked per script: nothing is destroyed or freed while the future is pending - even with every handle gone; after
- * resolution the state is released exactly when the last handle goes, destroyed once, freed once (allocations == frees; CBMC's
+ * Checked: nothing is destroyed or freed while the future is pending - even with every handle gone; after resolution the
+ * state is released exactly when the last handle goes, destroyed once, freed once (allocations == frees; CBMC's
  * use-after-free / double-free checks are on); every accepted awaiter is resumed exactly once and never before resolution; a
- * late awaiter is refused; every live copy is ready and reads the SAME value object holding the resolved value (symbolic). */
+ * late awaiter is refused; every live copy is ready and reads the SAME value object holding the resolved value. */
 #ifdef CV_HAS_drv_resolve
 #define NH 3
 #define NA 2
